@@ -4,7 +4,7 @@ Extracted (everything else in the file is modelled by hand in model/Http.v and t
   * the route table of WSGIApp.__init__  (Submount / Rule(path, methods=[...], endpoint=self.h)), in source order;
   * per function/method: every `try` statement as (names of the calls in its body, [(caught classes, action)]),
     where the accepted grammar of an except-body is
-        raise X(...) [from e] | raise | pass | return <name> | `if e.constraint_id != N: <raise-stmt>` followed by a raise
+        raise X(...) [from e] | raise | pass | return <name> | <name> = <constant> | `if e.constraint_id != N: <raise-stmt>` followed by a raise
   * per function: the ordered list of call names (used for `commit()` presence and for the model's call-site checks),
     the classes raised by plain `raise X(...)` statements, the `HTTPApiDecoder.request_body(request, model.T, S)` calls
     (expected type, stripped mode) and the `response_t(...)` calls (status, cursor?, stripped mode, Location?);
@@ -54,6 +54,10 @@ def _handler_action(body, var):
     if len(body) == 1 and isinstance(body[0], ast.Pass):
         return ("swallow",)
     if len(body) == 1 and isinstance(body[0], ast.Return) and isinstance(body[0].value, (ast.Name, ast.Attribute, ast.Call)):
+        return ("swallow",)
+    # `name = <constant>`: the handler continues with a default value
+    if (len(body) == 1 and isinstance(body[0], (ast.Assign, ast.AnnAssign)) and isinstance(getattr(body[0], "value", None), ast.Constant)
+            and all(isinstance(x, ast.Name) for x in (body[0].targets if isinstance(body[0], ast.Assign) else [body[0].target]))):
         return ("swallow",)
     # root-cause unwrapping loop of HTTPApiDecoder.xml:  f = e; while f.__cause__ ...: f = f.__cause__; raise X(str(f)) from e
     if (len(body) == 3 and isinstance(body[0], ast.AnnAssign) and isinstance(body[1], ast.While)
